@@ -61,7 +61,9 @@ def build(sb, rng, quick=True):
         for k in (0, 1, 2, 3, 7):
             for e in (-NS, -1, 0, 1, NS):
                 ages.append(k * P * NS + e)
-    ages += [-1, -NS, -DAY * NS // 2, -DAY * NS - 1, -3 * MIN * NS, 400 * DAY * NS]
+    ages += [-1, -NS, -DAY * NS // 2, -DAY * NS - 1, -3 * MIN * NS, 400 * DAY * NS,
+             # far in the future (beyond 2^63 ns from now) and far in the past (beyond 2^31 s): nothing may wrap
+             -300 * 365 * DAY * NS, -420 * 365 * DAY * NS, -(2 ** 63) - 12345, 80 * 365 * DAY * NS, 129 * 365 * DAY * NS]
     ages = sorted(set(ages))
     for i, a in enumerate(ages):
         p = os.path.join(d, "t%03d" % i)
@@ -266,7 +268,12 @@ def evaluate(st, sb, ents, lst, mine, now_ns, tree_desc):
                     want = "less" if v < n else ("eq" if v == n else "more")
                     got = "less" if p in less else ("eq" if p in eq else "more")
                     if kind[1] in "amc" and kind[2:] in ("time", "min") and v < 0:
+                        # a time stamp in the future: whether the fraction is discarded towards zero (value 0) or downwards (value -1)
+                        # is not stated, but either way the value is not positive: +N is false, and -N is true for every N >= 1
                         st.inc("negative_age_evaluations_trichotomy_only")
+                        if got == "more" or (n >= 1 and got != "less"):
+                            st.violate("wrong-comparison", None, {"test": kind, "N": n, "file": p, "measured": v, "note": "time stamp in the future: the "
+                                                                  "measured value is 0 or negative", "expected": "less" if n >= 1 else "less or eq", "find": got}, rp)
                         continue
                     if want != got:
                         st.violate("wrong-comparison", None, {"test": kind, "N": n, "file": p, "measured": v, "bytes": lst[p].st_size, "expected": want,
